@@ -42,9 +42,18 @@ Further families
             the order of its R_PART rows) is outside the property's clauses - documented behaviour, compared by K; scopes
             with missing rows are outside the property.  K: every ending (definitions / AttributeError / TypeError /
             MetaModelException) equals `buildAll` of the model.  Entries mk_component, build_component, gen_sql_schema.main.
-  twins     two of a kind: a second identifier over the same attributes, two classes with the same key letters (or
+  twins     two of a kind: user data types / enumerations / structured types NAMED like a core type (Real, Unique_ID, Boolean,
+            any letter case) whose own mapping is another one; a second identifier over the same attributes, two classes with the same key letters (or
             differing in letter case only) in different components, the same relationship number in two containers; every
             entry point, edit scripts (the predicted schema edit is not compared: key letters are unique per scope only).
+  cli       the command line of gen_sql_schema.main (long / joined / `=` spellings of -c -d -o, -v, the rows dealt over TWO
+            model files, usage errors: no -o / no model path -> exit status 1, nothing written) and the route
+            ooaofooa.load_metamodel (one path / two paths) + mk_component.
+  pkgref    package references (EP_PKGREF, R1402): the content of a package is also inside the component in which a package
+            referring to it lies; D only (`nomodel`).
+  Expectations are computed from the INPUT: synthesised cases from the generated diagram, real models from the model FILE read
+  by the harness's own statement reader (`ooa_encoder.RawPopulation`), never from the population the library loaded; the
+  predefined data types from the text of bridgepoint.schema.globals by the same reader.
   session   pattern "memoisation / aliasing / routes": ONE loaded population and ONE loader, first every route (mk_component,
             ModelLoader.build_component, bridgepoint.load_component, gen_sql_schema.main) for one component - all must
             agree with the specification -, then builds of other components / the whole model with either flag,
@@ -86,7 +95,7 @@ ASSUMPTIONS = [
     'D demands nothing there, K compares the ending (AttributeError) with buildOutcome of the model',
     'domain: well-formed populations — acyclic containment and user-type chains, one R103 chain per class, distinct '
     'key letters / attribute names per class / relationship numbers / component names, formalised simple relationships, '
-    'every relationship in scope has its classes in scope, referred identifiers consist of kept attributes, no EP_PKGREF',
+    'every relationship in scope has its classes in scope, referred identifiers consist of kept attributes; EP_PKGREF package references are not in the Lean model: family pkgref checks them by D only (oracle ooa_encoder.py_contained)',
     'names are SQL identifiers (reload) and phrases contain no quote: lexical matters belong to C01/C12',
     'family rows: a scope holding a relationship with missing rows / no or two subtype rows is outside the property (D demands '
     'nothing, K compares the ending); at most one such relationship per scope (which exception comes first depends on the '
@@ -131,8 +140,10 @@ def setup(ctx):
                        ('interp', interp_path)):
         l = _clone(ooaofooa, base)
         l.filename_input(path)
-        m = l.build_metamodel()
-        d = E.decode(m)
+        # the diagram of a real model is read off the FILE by the harness's own row reader (never off the population the
+        # library loaded: the expectation must not pass through the code under test)
+        from bridgepoint import schema
+        d = E.decode(E.RawPopulation(schema.globals, open(path, encoding='utf-8').read()))
         if d.get('rows'):
             raise HarnessError('real model %s holds a relationship outside the regular shapes (rows: %d)'
                                % (name, len(d['rows'])))
@@ -318,12 +329,39 @@ def generate(ctx):
         yield {'src': 'synth', 'family': 'rows', 'diagram': d, 'comp': name, 'drv': r.random() < 0.5, 'edits': [],
                'entry': r.choice(['mk', 'mk', 'build', 'main']), 'perm': r.randint(1, 1 << 30), 'labels': labels,
                'audit': j % 3 == 0}
+    # ---- package references (EP_PKGREF, R1402): the content of a package is also inside the component in which a package
+    #      REFERRING to it lies.  The Lean model has no package references: D only (oracle `py_contained`).
+    for j in range(ctx.pick(70, 600)):
+        r = rng.fork('pkgref', j)
+        base = E.gen_diagram(r, max_classes=4)
+        ids = iter(range(2 * 10 ** 7 + 10 * j, 2 * 10 ** 7 + 10 * (j + 1)))
+        d, gained = E.add_package_references(r, base, lambda: next(ids))
+        gained = [nm for nm in gained if E.scope_valid(d, _comp_id(d, nm)) and _numbers_distinct(d, nm)]
+        if not gained:
+            continue
+        entry = r.choice(['mk', 'build', 'main', 'load'])
+        yield {'src': 'synth', 'diagram': d, 'comp': r.choice(gained), 'drv': r.random() < 0.5 and entry != 'load', 'edits': [],
+               'entry': entry, 'perm': r.randint(1, 1 << 30), 'audit': j % 3 == 0, 'nomodel': True}
+    # ---- the command line of gen_sql_schema (long / joined / = spellings, -v, several model paths, usage errors) and the
+    #      ooaofooa.load_metamodel route
+    styles = ['long', 'eq', 'verbose', 'joined', 'split', 'split', 'no-output', 'no-model']
+    for j in range(ctx.pick(40, 400)):
+        r = rng.fork('cli', j)
+        d = E.gen_diagram(r, max_classes=4)
+        names = E.comp_choices(d)
+        name = r.choice(names)
+        if j % 5 == 4:
+            yield {'src': 'synth', 'diagram': d, 'comp': name, 'drv': r.random() < 0.5, 'edits': [], 'entry': 'lmk',
+                   'cli': r.choice(['one', 'split']), 'perm': r.randint(1, 1 << 30)}
+        else:
+            yield {'src': 'synth', 'diagram': d, 'comp': name, 'drv': r.random() < 0.5, 'edits': [], 'entry': 'main',
+                   'cli': styles[j % len(styles)], 'perm': r.randint(1, 1 << 30)}
     # ---- two of a kind: a second identifier over the same attributes, classes with the same key letters (also differing
     #      in letter case only) in different components, the same relationship number in different containers
     for j in range(ctx.pick(60, 1200)):
         r = rng.fork('twins', j)
         d = E.gen_diagram(r, max_classes=4, twin_idents=(j % 3 != 1), dup_key_letters=(j % 3 != 0),
-                          dup_rel_numbers=(j % 2 == 0))
+                          dup_rel_numbers=(j % 2 == 0), core_named_types=(j % 2 == 1))
         names = [nm for nm in E.comp_choices(d) if _numbers_distinct(d, nm)]
         if not names:
             continue
@@ -346,7 +384,7 @@ def generate(ctx):
     for j in range(ctx.pick(45, 900)):
         r = rng.fork('session', j)
         d = E.gen_diagram(r, max_classes=4, twin_idents=(j % 3 == 0), dup_key_letters=(j % 4 == 1),
-                          dup_rel_numbers=(j % 4 == 3))
+                          dup_rel_numbers=(j % 4 == 3), core_named_types=(j % 3 == 2))
         names = [nm for nm in E.comp_choices(d) if _numbers_distinct(d, nm)]
         if not names:
             continue
@@ -380,7 +418,7 @@ def generate(ctx):
     n = ctx.pick(270, 5000)
     for i in range(n):
         r = rng.fork('synth', i)
-        d = E.gen_diagram(r, max_classes=ctx.pick(5, 7))
+        d = E.gen_diagram(r, max_classes=ctx.pick(5, 7), core_named_types=(i % 5 == 3))
         if i % 3 == 2:
             # NON-EMPTY descriptions on every element kind (--, <, &, quotes, newlines): no part of what is mirrored
             d['descr'] = r.randint(1, 1 << 30)
@@ -572,10 +610,17 @@ def run_impl(case):
                 comp = bridgepoint.load_component(path, name) if case['src'] == 'synth' or not case.get('perm') \
                     else bridgepoint.load_component([path], name)
                 got0 = got1 = E.canon_metamodel(comp)
+            elif entry == 'lmk':
+                # ooaofooa.load_metamodel (one path, or the rows split over two files) + mk_component
+                paths = _split_file(path, tmpdir, case['perm']) if case.get('cli') == 'split' else path
+                m = ooaofooa.load_metamodel(paths)
+                c_c = m.select_any('C_C', xtuml.where_eq(Name=name)) if name is not None else None
+                if name and c_c is None:
+                    raise ooaofooa.OoaOfOoaException('no such component (harness)')
+                got0 = got1 = E.canon_metamodel(ooaofooa.mk_component(m, c_c, drv))
             elif entry == 'main':
                 out = os.path.join(tmpdir, 'schema.sql')
-                argv = ['gen_sql_schema', '-o', out] + (['-c', name] if name is not None else []) + \
-                       (['-d'] if drv else []) + [path]
+                argv = _sql_argv(case.get('cli'), out, name, drv, path, tmpdir, case.get('perm'))
                 got0 = got1 = _run_main(argv, out)
                 direct = E.canon_metamodel(loader.build_component(name, drv))
                 if direct != got0:
@@ -591,8 +636,22 @@ def run_impl(case):
         except xtuml.MetaModelException:
             # define_class / define_association refused a definition (UnknownClassException is a MetaModelException)
             obs = ['error', 'MetaModelException']
+        except _NoOutput as e:
+            obs = ['error', 'no-output']
+            fail('output-missing', 'gen_sql_schema.main returned normally but did not write %r' % (e.args[0],))
         except SystemExit as e:
             obs = ['error', 'SystemExit(%s)' % (e.code,)]
+            if case.get('cli') in ('no-output', 'no-model'):
+                # usage error: exit status 1, nothing written; nothing else is demanded
+                if e.code != 1:
+                    fail('exit-status', 'gen_sql_schema exits with status %r on a usage error' % (e.code,))
+                if os.path.exists(os.path.join(tmpdir, 'schema.sql')):
+                    fail('output-on-error', 'gen_sql_schema wrote an output file although the command line is incomplete')
+                key = hashlib.sha1(json.dumps(case, sort_keys=True, default=str).encode()).hexdigest()
+                return {'obs': obs, 'd_fail': fails[:3], 'nontrivial': False, 'key': key, 'stats': stats, 'model_line': None}
+    if case.get('cli') in ('no-output', 'no-model') and obs[0] != 'error':
+        fail('usage-error-accepted', 'gen_sql_schema ran although the command line lacks %s'
+             % ('-o' if case['cli'] == 'no-output' else 'a model path'))
 
     if obs[0] == 'ok' and want0 is not None and not (def0 and def1):
         fail('dangling-association-accepted', 'a relationship of the component has a class outside the component (or an '
@@ -745,6 +804,9 @@ def _run_session(case, stats):
                     got = _run_main(['gen_sql_schema', '-o', out] + (['-c', name] if name is not None else []) +
                                     (['-d'] if drv else []) + [path], out)
                 obs = ['ok', got]
+            except _NoOutput as e:
+                obs = ['error', 'no-output']
+                fail('output-missing', 'gen_sql_schema.main returned normally but did not write %r' % (e.args[0],), i)
             except xtuml.MetaModelException:
                 obs = ['error', 'MetaModelException']
             except ooaofooa.OoaOfOoaException:
@@ -816,6 +878,11 @@ def _build_rows(case, d, tmpdir, fails=None):
                               '%s, the component defines %s [component=%r labels=%s]'
                               % (json.dumps(back), json.dumps(got), name, case.get('labels'))})
         return ['ok', got, got]
+    except _NoOutput as e:
+        if fails is not None:
+            fails.append({'sig': 'output-missing', 'what': 'gen_sql_schema.main returned normally but did not write %r'
+                          % (e.args[0],)})
+        return ['error', 'no-output']
     except AttributeError:
         return ['error', 'AttributeError']
     except TypeError:
@@ -877,6 +944,10 @@ def _run_rows(case, stats):
     return {'obs': obs, 'd_fail': fails[:3], 'nontrivial': nontrivial, 'key': key, 'stats': stats}
 
 
+class _NoOutput(Exception):
+    """gen_sql_schema.main returned normally without writing the output file"""
+
+
 class _AfterEdits(Exception):
     """mk_component raised MetaModelException after the edits; carries the definitions before the edits"""
 
@@ -890,17 +961,62 @@ def _audit(m, d):
         raise HarnessError('decode(load(encode(diagram))) differs from the diagram')
 
 
+def _split_file(path, tmpdir, seed):
+    """the INSERT statements of a model file dealt over two files"""
+    import random
+    import re
+    rnd = random.Random(seed)
+    parts = re.split(r'(?=INSERT INTO)', open(path, encoding='utf-8').read())
+    a, b = [parts[0]], []
+    for st in parts[1:]:
+        (a if rnd.random() < 0.5 else b).append(st)
+    out = []
+    for i, chunk in enumerate((a, b)):
+        p = os.path.join(tmpdir, 'part%d.xtuml' % i)
+        with open(p, 'w', encoding='utf-8') as f:
+            f.write(''.join(chunk))
+        out.append(p)
+    return out
+
+
+def _sql_argv(style, out, name, drv, path, tmpdir, seed):
+    """command lines of gen_sql_schema: every spelling of the options, several model paths, usage errors"""
+    comp = [] if name is None else ['-c', name]
+    if style == 'long':
+        return ['gen_sql_schema', '--output', out] + ([] if name is None else ['--component', name]) + \
+               (['--derived-attributes'] if drv else []) + [path]
+    if style == 'eq':
+        return ['gen_sql_schema', path, '--output=' + out] + ([] if name is None else ['--component=' + name]) + \
+               (['--derived-attributes'] if drv else [])
+    if style == 'verbose':
+        return ['gen_sql_schema', '-vv', '-o', out] + comp + (['-d'] if drv else []) + ['-v', path]
+    if style == 'joined':
+        return ['gen_sql_schema', '-o' + out] + ([] if name is None else ['-c' + name]) + (['-d'] if drv else []) + [path]
+    if style == 'split':
+        return ['gen_sql_schema', '-o', out] + comp + (['-d'] if drv else []) + _split_file(path, tmpdir, seed)
+    if style == 'no-output':
+        return ['gen_sql_schema'] + comp + [path]
+    if style == 'no-model':
+        return ['gen_sql_schema', '-o', out] + comp
+    return ['gen_sql_schema', '-o', out] + comp + (['-d'] if drv else []) + [path]
+
+
 def _run_main(argv, out):
+    import contextlib
+    import io
     import logging
     from bridgepoint import gen_sql_schema
     saved = sys.argv
     sys.argv = argv
     try:
-        gen_sql_schema.main()
+        with contextlib.redirect_stdout(io.StringIO()), contextlib.redirect_stderr(io.StringIO()):
+            gen_sql_schema.main()
     finally:
         sys.argv = saved
         logging.disable(logging.CRITICAL)
     xtuml = _ctx['xtuml']
+    if not os.path.exists(out):
+        raise _NoOutput(out)
     l = xtuml.ModelLoader()
     l.filename_input(out)
     return E.canon_metamodel(l.build_metamodel())
@@ -935,6 +1051,8 @@ def _first_diff(got, want):
 # --------------------------------------------------------------------------- model side
 
 def model_line(case):
+    if case.get('nomodel'):
+        return None
     d = _diagram_of(case)
     name = Sym('none') if case['comp'] is None else case['comp']
     if case.get('family') == 'rows':
